@@ -164,6 +164,9 @@ Deep ==
     \* different explicit high tags of one class (self-describing)
     [k |-> "seq", tags |-> <<>>, comps |-> << Comp("p", Sc("int", <<CtxE(40)>>), "req"), Comp("q", Sc("octs", <<CtxE(41)>>), "req"),
                                               Comp("r", Sc("bool", <<CtxE(1000)>>), "opt") >>],
+    \* SET whose canonical order depends on the alternative chosen in an untagged CHOICE member
+    [k |-> "set", tags |-> <<>>, comps |-> << Comp("p", ChoiceOf(Sc("int", <<>>), Sc("utf8", <<>>), <<>>), "req"),
+                                              Comp("q", Sc("octs", <<>>), "req") >>],
     \* DEFAULT components of string-like kinds
     [k |-> "seq", tags |-> <<>>, comps |-> << Comp("a", Sc("int", <<>>), "req"),
                                               CompD("b", Sc("bits", <<>>), [bits |-> <<1, 0, 1>>]),
